@@ -101,7 +101,7 @@ pub fn check_spec(ctx: &Ctx, rep: &mut Report, fx: Option<&Fixture>, n: u64, d: 
         let eps2 = entry_points_of(&b, d);
         (b, before, dbg, eps, inh, eps2)
     });
-    let (b, before, dbg, eps, inh, eps2) = match r {
+    let (mut b, before, dbg, eps, inh, eps2) = match r {
         Ok(x) => x,
         Err(p) => {
             rep.violation("R.panic", d.name(), format!("{} {}", spec.kind(), panic_sig(&p)), json!({"panic": p, "spec": format!("{spec:?}")}), ctx.shard, n);
@@ -250,6 +250,43 @@ pub fn check_spec(ctx: &Ctx, rep: &mut Report, fx: Option<&Fixture>, n: u64, d: 
             if a != c {
                 rep.violation("R.rows", d.name(), format!("inline and bound executions differ: {}", sigk()), json!({"inline": inline, "parameterised": param, "values": vshow, "inline_outcome": show_outcome(&a), "bound_outcome": show_outcome(&c)}), ctx.shard, n);
                 return;
+            }
+        }
+    }
+    // R.continue: a statement that has been rendered (through every entry point, above) and is then built
+    // further renders like one that never was rendered — nothing computed during a rendering is reused
+    {
+        let more = |x: &mut Built| {
+            let cond = || Expr::col(Alias::new("zz_more")).eq(777003i32);
+            match x {
+                Built::Sel(q) => {
+                    q.and_where(cond());
+                }
+                Built::Upd(q) => {
+                    q.and_where(cond());
+                }
+                Built::Del(q) => {
+                    q.and_where(cond());
+                }
+                Built::Ins(_) | Built::With(_) => return false,
+            }
+            true
+        };
+        let mut fresh = clone_of(&before);
+        if more(&mut fresh) && more(&mut b) {
+            let r = guard(|| (b.inline(qb(d)), b.build(qb(d)), fresh.inline(qb(d)), fresh.build(qb(d))));
+            match r {
+                Ok((bi, (bp, bv), fi, (fp, fv))) => {
+                    rep.count("rendered_then_continued", 1);
+                    if bi != fi || bp != fp || format!("{:?}", bv.0) != format!("{:?}", fv.0) {
+                        rep.violation("R.continue", d.name(), format!("a rendered statement built further differs from one never rendered: {}", sigk()), json!({"rendered_then_continued": bi, "never_rendered": fi, "rendered_then_continued_param": bp, "never_rendered_param": fp}), ctx.shard, n);
+                        return;
+                    }
+                }
+                Err(pm) => {
+                    rep.violation("R.panic", d.name(), format!("{} continued {}", spec.kind(), panic_sig(&pm)), json!({"panic": pm}), ctx.shard, n);
+                    return;
+                }
             }
         }
     }
